@@ -63,4 +63,10 @@ CHECKS["C07"] = dict(level="exploration", technique="TLC-generated integer syste
          "points (LUSolve, LUDecomp+back substitution, TinyMatrixSolve throw/bool/matrix rhs incl. the 1x1-3x3 closed forms, TinyMatrixInvert, "
          "QRDecomp) are run on each and TLC judges 'solution = x0' or 'failure reported'.",
     note="Ill-conditioned non-integer systems are not explored; QRDecomp's silence on singular systems is a recorded known finding.", ref="8/C07")
+CHECKS["C11"] = dict(level="exploration", technique="exact rational reference model (Rat.tla, Interpolation.tla) + TLC-generated tables/queries judged by TLC",
+    text="Linear interpolation and the natural cubic spline are defined in TLA+ over exact rationals (tridiagonal system solved by the "
+         "Thomas algorithm; TLC checks the oracle's own C0/C1/C2 and natural-end theorems); every small table and every half-integer query "
+         "inside, on and outside the table is replayed through computeLinearInterpolation(AndDerivative)<extrapolate>, CubicSpline "
+         "getValue/getValues/computeIntegral/computeMeanValue and computeCubicSplineInterpolation<false>; TLC compares exact integers.",
+    note="Tables of at most 4-5 nodes with integer data (the statement speaks of up to 50 nodes).", ref="8/C11")
 NOT_APPLICABLE = {}
